@@ -93,7 +93,11 @@ func newInst(s *vdrv.Scenario) vdrv.Instance {
 	adder.VerifSetMaxCells(s.OptInt("maxcells", 2))
 	switch s.Kind {
 	case "jdkadd":
-		in.l = adder.NewLongAdder(adder.JDKAdderType)
+		if len(s.Threads)%2 == 1 {
+			in.l = adder.DefaultAdder() // documented default: JDKAdder
+		} else {
+			in.l = adder.NewLongAdder(adder.JDKAdderType)
+		}
 	case "rc":
 		in.l = adder.NewLongAdder(adder.RandomCellAdderType)
 	case "atomic":
@@ -101,7 +105,11 @@ func newInst(s *vdrv.Scenario) vdrv.Instance {
 	case "mutexadd":
 		in.l = adder.NewLongAdder(adder.MutexAdderType)
 	case "jdkf":
-		in.f = adder.NewFloat64Adder(adder.JDKF64AdderType)
+		if len(s.Threads)%2 == 1 {
+			in.f = adder.DefaultFloat64Adder() // documented default: JDKF64Adder
+		} else {
+			in.f = adder.NewFloat64Adder(adder.JDKF64AdderType)
+		}
 	case "atomicf":
 		in.f = adder.NewFloat64Adder(adder.AtomicF64AdderType)
 	}
